@@ -6,7 +6,7 @@
                    (Accept table | Reject = diagnostic required | Unspec reason = undefined behaviour / outside the property)
    known_devs h    h runs into one of the two recorded deviations of the compiler (D19, thread-local tentative definitions) *)
 From Coq Require Import List NArith Bool.
-From Cproc Require Import Lib.LinkageBase Model.Linkage Spec.LinkSpec Proofs.LinkageProofs.
+From Cproc Require Import Lib.LinkageBase Model.Linkage Spec.LinkSpec Proofs.LinkageProofs Proofs.LinkageIds.
 Import ListNotations.
 Local Open Scope N_scope.
 
